@@ -135,6 +135,9 @@ func (x *Engine) intrinsic(fr *Frame, st *State, name string, callee *ssa.Functi
 			cur := x.get(st, key)
 			st.h[key] = x.name("lk", "(Array Int Int)", fmt.Sprintf("(store %s %s (%s (select %s %s) 1))", cur, args[0].T, map[int]string{1: "+", -1: "-"}[d], cur, args[0].T))
 		}
+		if (op == "Lock" || op == "RLock") && len(x.guards) > 0 && strings.HasPrefix(args[0].T, "gmux_") {
+			x.lockAcquireChecks(fr, st, args[0].T, op, pos)
+		}
 		switch op {
 		case "Lock":
 			bump("Lock:w", 1)
@@ -328,4 +331,36 @@ func (x *Engine) concHavoc(fr *Frame, st *State, a *Addr) {
 		}
 	}
 	x.bumpEpoch(st)
+}
+
+// lockAcquireChecks: deadlock freedom of the declared mutexes, per acquisition — the thread does not already hold the
+// mutex it is about to block on, and it holds no mutex declared as INNER of the one it acquires.
+func (x *Engine) lockAcquireChecks(fr *Frame, st *State, mu, op, pos string) {
+	x.regComp("Lock:w", "(Array Int Int)")
+	x.regComp("Lock:r", "(Array Int Int)")
+	lw, lr := x.get(st, "Lock:w"), x.get(st, "Lock:r")
+	props := x.lockOrderProps
+	for _, gd := range x.guards {
+		if len(props) == 0 {
+			props = gd.props
+		}
+	}
+	if !hasProp(props, x.curProp) {
+		return
+	}
+	name := strings.TrimPrefix(mu, "gmux_")
+	x.ordinals["lockacq:"+name]++
+	n := x.ordinals["lockacq:"+name]
+	o := x.obligeNoAssume(st, "guard", fmt.Sprintf("%s-of-%s-not-already-held#%d", op, name, n), fmt.Sprintf("(= (+ (select %s %s) (select %s %s)) 0)", lw, mu, lr, mu),
+		"the thread does not already hold the mutex it acquires (self-deadlock), at "+pos, pos)
+	o.Props, o.Tagged = props, true
+	for _, ord := range x.lockOrders {
+		if x.mutexTerm(ord[0]) != mu {
+			continue
+		}
+		in := x.mutexTerm(ord[1])
+		o := x.obligeNoAssume(st, "guard", fmt.Sprintf("%s-of-%s-not-while-holding-%s#%d", op, name, ord[1].Name(), n), fmt.Sprintf("(= (+ (select %s %s) (select %s %s)) 0)", lw, in, lr, in),
+			fmt.Sprintf("lock order: %s is never acquired while holding %s, at %s", ord[0].Name(), ord[1].Name(), pos), pos)
+		o.Props, o.Tagged = props, true
+	}
 }
